@@ -73,6 +73,64 @@ Definition view_diff (a b : view) : Z :=
   else if negb (v_slashed_batch a =? v_slashed_batch b) then 13
   else 0.
 
+(* the harness prints, per operation, only what changed in the projection *)
+Inductive vdelta :=
+| DRec (a : Z) (r : option oracle)      (* record of oracle a inserted / replaced / deleted *)
+| DByB (l : list (Z * Z))
+| DByE (l : list (Z * Z))
+| DProp (l : list Z)
+| DPower (z : Z)
+| DDeleg (l : list (Z * Z * Z))
+| DUbds (l : list (Z * Z * Z * Z))
+| DBalO (i : nat) (z : Z)               (* position in universe order *)
+| DBalD (i : nat) (z : Z)
+| DSet (x : Z * Z * list Z)             (* oracle set with this nonce replaced / appended *)
+| DSets (l : list (Z * Z * list Z))
+| DSlashedSet (z : Z)
+| DBatch (x : Z * Z * list Z)
+| DBatches (l : list (Z * Z * list Z))
+| DSlashedBat (z : Z).
+
+Fixpoint insert_rec (r : oracle) (l : list oracle) : list oracle :=
+  match l with
+  | [] => [r]
+  | x :: t => if o_addr r <? o_addr x then r :: l else x :: insert_rec r t
+  end.
+Definition patch_rec (a : Z) (r : option oracle) (l : list oracle) : list oracle :=
+  let l' := filter (fun x => negb (o_addr x =? a)) l in
+  match r with Some r => insert_rec r l' | None => l' end.
+Fixpoint upd_nth (i : nat) (z : Z) (l : list Z) : list Z :=
+  match l, i with
+  | [], _ => []
+  | _ :: t, O => z :: t
+  | x :: t, S j => x :: upd_nth j z t
+  end.
+Fixpoint put_obj (x : Z * Z * list Z) (l : list (Z * Z * list Z)) : list (Z * Z * list Z) :=
+  match l with
+  | [] => [x]
+  | y :: t => if fst (fst y) =? fst (fst x) then x :: t else y :: put_obj x t
+  end.
+
+Definition patch1 (v : view) (d : vdelta) : view :=
+  match d with
+  | DRec a r => mkView (patch_rec a r (v_recs v)) (v_byb v) (v_bye v) (v_prop v) (v_power v) (v_deleg v) (v_ubds v) (v_balo v) (v_bald v) (v_sets v) (v_slashed_set v) (v_batches v) (v_slashed_batch v)
+  | DByB l => mkView (v_recs v) l (v_bye v) (v_prop v) (v_power v) (v_deleg v) (v_ubds v) (v_balo v) (v_bald v) (v_sets v) (v_slashed_set v) (v_batches v) (v_slashed_batch v)
+  | DByE l => mkView (v_recs v) (v_byb v) l (v_prop v) (v_power v) (v_deleg v) (v_ubds v) (v_balo v) (v_bald v) (v_sets v) (v_slashed_set v) (v_batches v) (v_slashed_batch v)
+  | DProp l => mkView (v_recs v) (v_byb v) (v_bye v) l (v_power v) (v_deleg v) (v_ubds v) (v_balo v) (v_bald v) (v_sets v) (v_slashed_set v) (v_batches v) (v_slashed_batch v)
+  | DPower z => mkView (v_recs v) (v_byb v) (v_bye v) (v_prop v) z (v_deleg v) (v_ubds v) (v_balo v) (v_bald v) (v_sets v) (v_slashed_set v) (v_batches v) (v_slashed_batch v)
+  | DDeleg l => mkView (v_recs v) (v_byb v) (v_bye v) (v_prop v) (v_power v) l (v_ubds v) (v_balo v) (v_bald v) (v_sets v) (v_slashed_set v) (v_batches v) (v_slashed_batch v)
+  | DUbds l => mkView (v_recs v) (v_byb v) (v_bye v) (v_prop v) (v_power v) (v_deleg v) l (v_balo v) (v_bald v) (v_sets v) (v_slashed_set v) (v_batches v) (v_slashed_batch v)
+  | DBalO i z => mkView (v_recs v) (v_byb v) (v_bye v) (v_prop v) (v_power v) (v_deleg v) (v_ubds v) (upd_nth i z (v_balo v)) (v_bald v) (v_sets v) (v_slashed_set v) (v_batches v) (v_slashed_batch v)
+  | DBalD i z => mkView (v_recs v) (v_byb v) (v_bye v) (v_prop v) (v_power v) (v_deleg v) (v_ubds v) (v_balo v) (upd_nth i z (v_bald v)) (v_sets v) (v_slashed_set v) (v_batches v) (v_slashed_batch v)
+  | DSet x => mkView (v_recs v) (v_byb v) (v_bye v) (v_prop v) (v_power v) (v_deleg v) (v_ubds v) (v_balo v) (v_bald v) (put_obj x (v_sets v)) (v_slashed_set v) (v_batches v) (v_slashed_batch v)
+  | DSets l => mkView (v_recs v) (v_byb v) (v_bye v) (v_prop v) (v_power v) (v_deleg v) (v_ubds v) (v_balo v) (v_bald v) l (v_slashed_set v) (v_batches v) (v_slashed_batch v)
+  | DSlashedSet z => mkView (v_recs v) (v_byb v) (v_bye v) (v_prop v) (v_power v) (v_deleg v) (v_ubds v) (v_balo v) (v_bald v) (v_sets v) z (v_batches v) (v_slashed_batch v)
+  | DBatch x => mkView (v_recs v) (v_byb v) (v_bye v) (v_prop v) (v_power v) (v_deleg v) (v_ubds v) (v_balo v) (v_bald v) (v_sets v) (v_slashed_set v) (put_obj x (v_batches v)) (v_slashed_batch v)
+  | DBatches l => mkView (v_recs v) (v_byb v) (v_bye v) (v_prop v) (v_power v) (v_deleg v) (v_ubds v) (v_balo v) (v_bald v) (v_sets v) (v_slashed_set v) l (v_slashed_batch v)
+  | DSlashedBat z => mkView (v_recs v) (v_byb v) (v_bye v) (v_prop v) (v_power v) (v_deleg v) (v_ubds v) (v_balo v) (v_bald v) (v_sets v) (v_slashed_set v) (v_batches v) z
+  end.
+Definition patch (v : view) (ds : list vdelta) : view := fold_left patch1 ds v.
+
 (* observed class: 0 = accepted, 1 = rejected (error / tx reverted), 2 = panic *)
 Definition class_of (r : res) : Z := match r with Ok _ => 0 | Err _ => 1 | Panic => 2 end.
 
@@ -80,20 +138,20 @@ Record orc_case := mkCase {
   c_univ : universe;
   c_init : state;
   c_view0 : view;
-  c_steps : list (op * Z * option view) }.   (* None = the projection did not change *)
+  c_steps : list (op * Z * list vdelta) }.
 
 Definition mk_orc_case (accs orcs exts vs : list Z) (h t ub : Z) (thr mul frac win : Z)
-           (v0 : view) (steps : list (op * Z * option view)) : orc_case :=
+           (v0 : view) (steps : list (op * Z * list vdelta)) : orc_case :=
   mkCase (mkU accs orcs exts vs) (init h t ub vs (mkParams thr mul frac win)) v0 steps.
 
 (* (step index starting at 1, what differs: 100 = class, else view component); (0,0) = agreement *)
-Fixpoint first_diff (U : universe) (s : state) (pv : view) (i : Z) (l : list (op * Z * option view)) : Z * Z :=
+Fixpoint first_diff (U : universe) (s : state) (pv : view) (i : Z) (l : list (op * Z * list vdelta)) : Z * Z :=
   match l with
   | [] => (0, 0)
-  | (o, cls, ov) :: r =>
+  | (o, cls, ds) :: r =>
     if negb (class_of (step s o) =? cls) then (i, 100)
     else let s' := exec s o in
-         let v := match ov with Some v => v | None => pv end in
+         let v := patch pv ds in
          let d := view_diff (view_of U s') v in
          if negb (d =? 0) then (i, d) else first_diff U s' v (i + 1) r
   end.
